@@ -2,11 +2,11 @@ package core
 
 import (
 	"fmt"
-	"os"
 	"go/constant"
 	"go/token"
 	"go/types"
 	"math"
+	"os"
 	"sort"
 	"strings"
 
@@ -23,9 +23,9 @@ type Set uint64
 // bucket 0 = below the smallest, 1+2i = the i-th declared value, 2+2i = the
 // gap above it (the last gap is "above the largest").
 type Domain struct {
-	T     types.Type
-	Vals  []int64
-	Names map[int64]string
+	T      types.Type
+	Vals   []int64
+	Names  map[int64]string
 	Lo, Hi int64 // range of the underlying integer type
 }
 
@@ -299,7 +299,7 @@ type EnumFlow struct {
 	Mods func(call ssa.CallInstruction, fieldName string) bool // may the call store to a domain-typed field of that name?
 	// CellRes supplies the contents of a memory cell (by access path) that the
 	// function itself has no fact about, e.g. from the callers.
-	CellRes func(path string, root ssa.Value) (Set, bool)
+	CellRes   func(path string, root ssa.Value) (Set, bool)
 	Undecided []string
 	Done      bool // fixpoint finished (false while Run is in progress)
 	Unknown   bool // analysis was cut off (recursion depth): every query answers "anything"
